@@ -449,11 +449,11 @@ func extReadFull(vc *VC, fr *Frame, st *State, args []Val, pos token.Pos) []Outc
 	s2 := st
 	s2.Assume(Not(enough))
 	if !s2.Infeasible() {
-		// short: everything that was left is consumed, buffer contents unspecified
-		n := vc.freshTerm("nshort", vc.intSort(64))
+		// short: everything that was left is consumed, buffer contents unspecified. Per the documentation
+		// of io.ReadFull the count is what was left; the error is the reader's own end-of-data error when
+		// nothing was read, and io.ErrUnexpectedEOF when some bytes were read and that error is io.EOF.
+		n := vc.define("nshort", rem)
 		n.Signed = true
-		s2.Assume(vc.iLe(vc.idx(0), n, true))
-		s2.Assume(vc.iLt(n, buf.Len, true))
 		if buf.Base.Cell != nil {
 			old := vc.load(s2, buf.Base)
 			vc.store(s2, buf.Base, vc.havocVal(old, nil, "shortbuf", s2))
@@ -465,7 +465,13 @@ func extReadFull(vc *VC, fr *Frame, st *State, args []Val, pos token.Pos) []Outc
 		if vc.writeLog != nil {
 			vc.writeLog[p.Cell] = true
 		}
-		res = append(res, Outcome{St: s2, Ret: []Val{n, vc.newError(s2, "readfull")}})
+		unexp := vc.ufApp("ext_io.ErrUnexpectedEOF", SErr)
+		unexp.NonNil = true
+		s2.Fact(Not(Eq(unexp, Term{S: SErr, E: "err_nil"})))
+		s2.Fact(Not(Eq(unexp, Term{S: SErr, E: "io_EOF"})))
+		rerr := Ite(Eq(rem, vc.idx(0)), s.EOFErr, Ite(Eq(s.EOFErr, Term{S: SErr, E: "io_EOF"}), unexp, s.EOFErr))
+		rerr.NonNil = true
+		res = append(res, Outcome{St: s2, Ret: []Val{n, rerr}})
 	}
 	return res
 }
@@ -846,6 +852,10 @@ func (vc *VC) callBuiltin(fr *Frame, st *State, name string, args []Val, c *ssa.
 		if v, ok := args[0].(SliceVal); ok {
 			return one(st, v.Cap)
 		}
+	case "copy":
+		return vc.builtinCopy(fr, st, args)
+	case "append":
+		return vc.builtinAppend(fr, st, args, c, pos)
 	case "recover":
 		if st.panicking {
 			st.recovered = true
